@@ -477,3 +477,116 @@ func init() {
 		}
 	})
 }
+
+// ------------------------------------------------------------------ C13.R11
+// F47, F48 (block sync v2).
+// (a) Three places decide at which height a fresh node starts: the reactor (first request), the scheduler
+//
+//	(after a reset) and the processor (which block it takes out of its queue next). The chain's first block
+//	is at the genesis initial height, not at 1: every one of the three must fall back to InitialHeight when
+//	there is no block yet, or the node queues blocks it never processes and ends up in consensus at genesis.
+//
+// (b) A peer's lastTouched is set when it delivers a block and is the zero time before: "silent for longer
+//
+//	than the timeout" may only be concluded from a lastTouched that was set, or every peer is removed by
+//	the first prune tick after it reported its status and the node never reaches the tip.
+func init() {
+	register("C13", "R11", "K5+K1", "v2: reactor, scheduler and processor all start at the initial height when there is no block; inactivity is measured only from a time that was set", 5, func(c *Ctx) {
+		w := c.W
+		mentions := func(vals []string) (lbh, ih bool) {
+			for _, s := range vals {
+				if regexp.MustCompile(`\.LastBlockHeight \+ 1\)?`).MatchString(s) {
+					lbh = true
+				}
+				if strings.Contains(s, ".InitialHeight") {
+					ih = true
+				}
+			}
+			return
+		}
+		// values a start-height expression can take: phi edges, or the returns of the helper that computes it
+		var sources func(v ssa.Value, d int) []string
+		sources = func(v ssa.Value, d int) []string {
+			v = stripConv(v)
+			if d > 3 {
+				return []string{w.expr(v)}
+			}
+			switch x := v.(type) {
+			case *ssa.Phi:
+				var out []string
+				for _, e := range x.Edges {
+					out = append(out, sources(e, d+1)...)
+				}
+				return out
+			case *ssa.Call:
+				if h := staticCallee(x); h != nil && h.Blocks != nil && strings.HasPrefix(pkgPathOf(h), modPath) {
+					var out []string
+					for _, r := range returnValues(h, 0) {
+						out = append(out, sources(r, d+1)...)
+					}
+					return out
+				}
+			}
+			return []string{w.expr(v)}
+		}
+		check := func(key string, pos string, v ssa.Value) {
+			src := sources(v, 0)
+			lbh, ih := mentions(src)
+			c.Check(lbh && ih, key, pos, "LastBlockHeight+1, or InitialHeight when there is no block", "computed from "+strings.Join(src, " | ")+": on a chain with initial_height > 1 this component starts at another height than the other two")
+		}
+		if f := c.fn("blockchain/v2", "newReactor"); f != nil {
+			for _, call := range w.callsTo(f, "blockchain/v2#newScheduler") {
+				check(funcKey(f)+" :: first height requested", w.ipos(call), callArgs(call)[0])
+			}
+		}
+		if f := c.fn("blockchain/v2", "scheduler.handleResetState"); f != nil {
+			n := 0
+			for _, fs := range w.fieldStoresIn(f, "blockchain/v2", "scheduler", "height") {
+				n++
+				check(funcKey(f)+" :: height after a reset", w.ipos(fs.Store), fs.Store.Val)
+			}
+			c.Check(n == 1, funcKey(f)+" :: sets the scheduler height", w.pos(f.Pos()), "1 store", fmt.Sprintf("%d", n))
+		}
+		if f := c.fn("blockchain/v2", "pcState.nextTwo"); f != nil {
+			fk := funcKey(f)
+			var keys []ssa.Value
+			for _, b := range f.Blocks {
+				for _, in := range b.Instrs {
+					if lk, ok := in.(*ssa.Lookup); ok && strings.HasSuffix(w.expr(lk.X), ".queue") {
+						keys = append(keys, lk.Index)
+					}
+				}
+			}
+			if c.Check(len(keys) == 2, fk+" :: two queue lookups", w.pos(f.Pos()), "2", fmt.Sprintf("%d", len(keys))) {
+				// base and constant offset of each key (x and x+1, or x+1 and x+2)
+				off := func(v ssa.Value) (string, int64) {
+					k := int64(0)
+					for i := 0; i < 4; i++ {
+						b, d, ok := splitOffset(v)
+						if !ok {
+							break
+						}
+						v, k = b, k+d
+					}
+					return w.expr(v), k
+				}
+				b1, o1 := off(keys[0])
+				b2, o2 := off(keys[1])
+				c.Check(b1 == b2 && o2 == o1+1, fk+" :: the second block is the one after the first", w.pos(f.Pos()), "first + 1", w.expr(keys[0])+" and "+w.expr(keys[1]))
+				check(fk+" :: first height processed", w.pos(f.Pos()), keys[0])
+			}
+		}
+		if f := c.fn("blockchain/v2", "scheduler.prunablePeers"); f != nil {
+			fk := funcKey(f)
+			n := 0
+			for _, call := range w.callsTo(f, "time#Time.Sub") {
+				if !strings.HasSuffix(w.expr(callArgs(call)[0]), ".lastTouched") {
+					continue
+				}
+				n++
+				c.guards(f, call, fk+" :: measure a peer's silence", 0, guardRe("the peer's lastTouched was set", `^false\(.*\.lastTouched\.IsZero\(\)\)$`))
+			}
+			c.Check(n == 1, fk+" :: inactivity test found", w.pos(f.Pos()), "1", fmt.Sprintf("%d", n))
+		}
+	})
+}
